@@ -144,6 +144,8 @@ func threadRun(L *LState) {
 				lv = LString(fmt.Sprint(rcv))
 			}
 			if parent := L.Parent; parent != nil {
+				// the coroutine dies: its captured variables keep their values
+				L.closeUpvalues(0)
 				if L.wrapped {
 					L.Push(lv)
 					parent.Panic(L)
